@@ -83,6 +83,8 @@ def run(ctx):
     else:
         ctx.violated(r1, init, "self.samples", "the distribution does not store the samples it was given", node=init.node)
 
+    _empirical_semantics(ctx, r1, repo)
+
     # ---------------- R2
     dm = tc.methods["distributions"]
     for stat, mu_bkg, history in [(st_, mb_, h_) for st_, mb_ in (("qtilde", Poly()), ("q", Poly()), ("q0", Poly.const(1))) for h_ in ("fresh calculator", "after teststatistic at another mu")]:
@@ -265,3 +267,68 @@ def run(ctx):
         ctx.holds(r3, f"{PROB}::_SimpleDistributionMixin.sample", "self._pdf.sample(sample_shape)")
     else:
         ctx.violated(r3, ms, "self._pdf.sample(...)", "the requested sample shape is not forwarded to the backend distribution", node=ms.node)
+
+
+def _empirical_semantics(ctx, rid, repo):
+    """EmpiricalDistribution and ToyCalculator.pvalues INTERPRETED on concrete sample vectors (list tensors): the
+    p-value is exactly the fraction of ALL sampled statistics >= the observed one (2-D input, ties, infinite statistics,
+    observations below / inside / beyond the sample), and the toy calculator returns exactly those fractions."""
+    from fractions import Fraction as F_
+    from .. import listnp
+    from ..alg import AutoRegion
+    from ..objmodel import World
+    edc, tcc = repo.cls(CALC, "EmpiricalDistribution"), repo.cls(CALC, "ToyCalculator")
+    errs = (Undecided, KeyError, TypeError, ValueError, IndexError, AttributeError)
+    region = AutoRegion()
+    region["INF"] = F_(10) ** 30
+    INFV = float("inf")
+
+    def mk():
+        ext = listnp.externals(interp_truth=lambda v: to_poly(v).evalf(region) != 0)
+        ext["get_backend"] = lambda a, k: (Obj("tensorlib"), None)
+        w = World(ext, region=region, module_env={})
+        w.add_class(edc).add_class(tcc)
+        return w
+
+    def tensor(vals, twod):
+        xs = [Poly.atom("INF") if v == INFV else Poly.const(F_(str(v))) for v in vals]
+        return listnp.T([xs[: len(xs) // 2], xs[len(xs) // 2:]]) if twod else listnp.T(xs)
+
+    samples = [0, 0.4, 0.4, 2.5, INFV, INFV]
+    probs = []
+    try:
+        for twod in (False, True):
+            w = mk()
+            ed = w.new(edc, [tensor(samples, twod)], {})
+            for v in (-1, 0, 0.4, 1, 2.5, 100):
+                got = to_poly(w.call_method(ed, "pvalue", [Poly.const(F_(str(v)))]))
+                want = F_(sum(1 for x in samples if x >= v), len(samples))
+                if not (got.is_const() and got.const_value() == want):
+                    probs.append(f"samples {samples}{' (given as 2 x 3)' if twod else ''}: pvalue({v}) = {got}, the fraction of sampled statistics >= {v} is {want}")
+        if probs:
+            ctx.violated(rid, edc.methods["pvalue"], "tail fraction", "the empirical p-value is not exactly the fraction of ALL sampled statistics >= the observed value (infinite statistics count: they are >= every observation): " + probs[0], found=f"{len(probs)} deviation(s)")
+        else:
+            ctx.holds(rid, f"{CALC}::EmpiricalDistribution [interpreted]", "6 samples incl. ties and +inf, flat and 2-D input, 6 observed values: exact tail fractions")
+    except errs as e:
+        ctx.unrecognised(rid, edc, "EmpiricalDistribution [interpreted]", f"not interpretable: {type(e).__name__}: {e}")
+    try:
+        probs = []
+        sig, bkg = [1.0, 2.0, 3.0, 4.0], [0.1, 0.2, 0.5, 1.5]
+        for t in (0.05, 1.2, 2.0, 3.5, 9.0):
+            w = mk()
+            sd, bd = w.new(edc, [tensor(sig, False)], {}), w.new(edc, [tensor(bkg, False)], {})
+            from ..objmodel import Instance
+            calc = Instance(tcc)
+            out = w.call_method(calc, "pvalues", [Poly.const(F_(str(t))), sd, bd])
+            clsb, clb = to_poly(out[0]), to_poly(out[1])
+            wsb, wb = F_(sum(1 for x in sig if x >= t), 4), F_(sum(1 for x in bkg if x >= t), 4)
+            if not (clsb.is_const() and clsb.const_value() == wsb and clb.is_const() and clb.const_value() == wb):
+                probs.append(f"observed statistic {t}: (CLsb, CLb) = ({clsb}, {clb}); the tail fractions of the two toy samples are ({wsb}, {wb})")
+            elif wb != 0 and not (to_poly(out[2]).is_const() and to_poly(out[2]).const_value() == wsb / wb):
+                probs.append(f"observed statistic {t}: CLs = {to_poly(out[2])}, CLsb/CLb = {wsb / wb}")
+        if probs:
+            ctx.violated(rid, tcc.methods["pvalues"], "toy p-values", "the toy calculator does not return exactly the tail fractions of its two toy samples (also when the observation lies beyond every background-like toy, where CLb is 0): " + probs[0], found=f"{len(probs)} deviation(s)")
+        else:
+            ctx.holds(rid, f"{CALC}::ToyCalculator.pvalues [interpreted]", "5 observed values from below to beyond both samples: (CLsb, CLb) are the tail fractions, CLs their ratio")
+    except errs as e:
+        ctx.unrecognised(rid, tcc, "ToyCalculator.pvalues [interpreted]", f"not interpretable: {type(e).__name__}: {e}")
